@@ -92,6 +92,8 @@ def execute(case):
 
     def factory():
         state["spawned"] += 1
+        if state["spawned"] > 64:
+            raise RuntimeError("runaway: the pool keeps asking its factory for children")
         d = fdem[(state["spawned"] - 1) % len(fdem)]
         p = RecPool(supply=0, demand=d, utilisation=1.0, allocation=1.0)
         remember(p, n0 + state["spawned"])
@@ -247,6 +249,8 @@ def execute_online(case, rnd):
 
     def factory():
         spawned[0] += 1
+        if spawned[0] > 64:
+            raise RuntimeError("runaway: the pool keeps asking its factory for children")
         p = RecPool(supply=0, demand=fdem[(spawned[0] - 1) % len(fdem)], utilisation=1.0, allocation=1.0)
         pools[n0 + spawned[0]] = p
         return p
@@ -306,7 +310,10 @@ def execute_online(case, rnd):
                     ops.append({"e": "Read"})
             nursery.cancel_scope.cancel()
 
-    trio.run(main, clock=trio.testing.MockClock(autojump_threshold=0))
+    try:
+        trio.run(main, clock=trio.testing.MockClock(autojump_threshold=0))
+    except Exception:  # noqa: the pool raised while the history was being generated: the history
+        pass           # so far is the case (replaying it meets the same exception)
     return dict(case, ops=ops)
 
 
